@@ -113,6 +113,9 @@ parse_u64(const char *s)
 }
 
 /* implemented by each harness */
+#ifdef HARNESS_NOISE
+static void harness_noise(void);
+#endif
 static void harness_reset(void);
 static void harness_op(int argc, char **argv);
 
@@ -135,6 +138,11 @@ harness_main(void)
             alarm(20);
             continue;
         }
+#ifdef HARNESS_NOISE
+        /* between any two operations a second, unrelated object of the same kind is used (harness_noise): what the
+         * library answers for the object under test must not depend on it - the library keeps no state of its own */
+        harness_noise();
+#endif
         harness_op(argc, argv);
         putchar('\n');
     }
